@@ -68,6 +68,35 @@ class NextIdLemmas(Lemma):
 
 
 @register
+class NextIdSuccessor(Lemma):
+    """successor lemma of the enumeration (separate unit: the slowest of the bit-vector lemmas)"""
+    name = "lemma:no-id-of-the-class-lies-between-next-id(t)-and-next-id(t+1)"
+    props = ("C05", "C04")
+    timeout_ms = 240000
+
+    def run(self, c, cfg):
+        p, s, m = _bits(c)
+        cmc0 = z3.BitVec("first_cmc", 64)
+        c.inputs["first_cmc"] = cmc0
+        field = shl_sat(low(s + m), p)
+        masked = field & cmc0
+        t = z3.BitVec("t", 64)
+        c.inputs["t"] = t
+        room = BV64(64) - s - m
+        in_room = lambda x: z3.Or(room == BV64(64), z3.ULT(x, shl_sat(BV64(1), room)))
+        c.assume(in_room(t))
+        n1 = nxt_spec(t, p, s, m, masked)
+        x = z3.BitVec("id", 64)
+        c.inputs["id"] = x
+        rk = shl_sat(lshr_sat(x, p + s + m), p) | (x & low(p))
+        c.prove("rank-is-monotone-on-the-class",
+                SBool(z3.Implies(z3.And((x & field) == masked, z3.UGT(x, n1)), z3.UGT(rk, t))))
+        c.prove("an-id-of-the-class-above-next-id(t)-is-at-least-next-id(t+1)",
+                SBool(z3.Implies(z3.And((x & field) == masked, z3.UGT(x, n1), in_room(t + 1), t + 1 != 0),
+                                 z3.UGE(x, nxt_spec(t + 1, p, s, m, masked)))))
+
+
+@register
 class MiniShardNextCmc(Contract):
     target = SF + "MiniShard.next_cmc"
     props = ("C05",)
